@@ -1,5 +1,6 @@
 import Prom.Lemmas.RegistryInv
 import Prom.Lemmas.C06Conc
+import Prom.Lemmas.C06Err
 
 namespace Prom.C06
 open Prom
@@ -142,6 +143,161 @@ theorem register_same_single_alreadyReg (r : Reg) (d : Desc) (fams : List Family
   unfold Reg.register
   simp only [this]
 
+/-! ### which error a refused registration returns -/
+
+/-- **register_err_kind** — the error of the descriptor loop is decided by the FIRST offending
+    descriptor in the collector's own order: if the loop fails with `e`, the descriptors split as
+    `pre ++ d :: post` where the loop accepted every descriptor of `pre` (staging their ids `ids'` and
+    signatures `nd'`) and refused `d`; `e` is `AlreadyReg` exactly when `d` clashes with no common label
+    and its id is in use, and `Msg` exactly in the other refusal cases: a common-label clash, or - id
+    not in use - a dimension hash that disagrees with the recorded signature of the name, or (none
+    recorded) with the staged one, or an id repeated inside the collector. (A clash with a common label
+    hides an id in use: the label check comes first.) -/
+theorem register_err_kind (r : Reg) (ds : List Desc) (ids : List UInt64) (nd : List (Str × UInt64)) (cid : UInt64)
+    (e : RErr) (h : regLoop r ds ids nd cid = .error e) :
+    ∃ pre d post ids' nd' cid', ds = pre ++ d :: post ∧
+      regLoop r pre ids nd cid = .ok (ids', nd', cid') ∧
+      ids' = ids ++ pre.map (·.id) ∧ nd' = (pre.map descKv).foldl ins nd ∧
+      (∀ x ∈ pre, DescOk r x) ∧
+      (e = .alreadyReg ↔ clashesCommon r.labels d = false ∧ r.descIds.contains d.id = true) ∧
+      (e = .msg ↔ clashesCommon r.labels d = true ∨
+        (r.descIds.contains d.id = false ∧
+          ((∃ h, dimLookup r.dimHashes d.fqName = some h ∧ h ≠ d.dimHash) ∨
+           (dimLookup r.dimHashes d.fqName = none ∧ ∃ h, dimLookup nd' d.fqName = some h ∧ h ≠ d.dimHash) ∨
+           d.id ∈ ids'))) := by
+  obtain ⟨pre, d, post, ⟨ids', nd', cid'⟩, hsplit, hok, hx⟩ := (regLoop_err_iff r ds ids nd cid e).1 h
+  obtain ⟨h1, h2, _, _⟩ := regLoop_ok r _ _ _ _ _ _ _ hok
+  have h3 := regLoop_nd r _ _ _ _ _ hok
+  refine ⟨pre, d, post, ids', nd', cid', hsplit, hok, h2, h3, h1, ?_, ?_⟩
+  · constructor
+    · intro he
+      subst he
+      rcases (descRefusal_eq_some_iff r ids' nd' d _).1 hx with ⟨_, hc, hi⟩ | ⟨he, _⟩
+      · exact ⟨hc, hi⟩
+      · cases he
+    · rintro ⟨hc, hi⟩
+      rcases (descRefusal_eq_some_iff r ids' nd' d e).1 hx with ⟨he, _, _⟩ | ⟨_, hc' | ⟨hi', _⟩⟩
+      · exact he
+      · rw [hc] at hc'; cases hc'
+      · rw [hi] at hi'; cases hi'
+  · have hmem : ids'.contains d.id = true ↔ d.id ∈ ids' := by simp
+    rw [← hmem]
+    constructor
+    · intro he
+      subst he
+      rcases (descRefusal_eq_some_iff r ids' nd' d _).1 hx with ⟨he, _⟩ | ⟨_, hm⟩
+      · cases he
+      · exact hm
+    · intro hm
+      rcases (descRefusal_eq_some_iff r ids' nd' d e).1 hx with ⟨_, hc, hi⟩ | ⟨he, _⟩
+      · rcases hm with hc' | ⟨hi', _⟩
+        · rw [hc] at hc'; cases hc'
+        · rw [hi] at hi'; cases hi'
+      · exact he
+
+/-- **register_err_kind_iff** — the same as an equivalence (so the split is the only way to fail, and
+    each refusal reason does produce its error): the loop fails with `e` iff the descriptors split as
+    `pre ++ d :: post`, the loop accepts `pre`, and `d` is refused with `e` against what `pre` staged. -/
+theorem register_err_kind_iff (r : Reg) (ds : List Desc) (ids : List UInt64) (nd : List (Str × UInt64)) (cid : UInt64)
+    (e : RErr) :
+    regLoop r ds ids nd cid = .error e ↔
+    ∃ pre d post ids' nd' cid', ds = pre ++ d :: post ∧ regLoop r pre ids nd cid = .ok (ids', nd', cid') ∧
+      ((e = .alreadyReg ∧ clashesCommon r.labels d = false ∧ r.descIds.contains d.id = true) ∨
+       (e = .msg ∧ (clashesCommon r.labels d = true ∨
+        (r.descIds.contains d.id = false ∧
+          ((∃ h, dimLookup r.dimHashes d.fqName = some h ∧ h ≠ d.dimHash) ∨
+           (dimLookup r.dimHashes d.fqName = none ∧ ∃ h, dimLookup nd' d.fqName = some h ∧ h ≠ d.dimHash) ∨
+           ids'.contains d.id = true))))) := by
+  rw [regLoop_err_iff]
+  constructor
+  · rintro ⟨pre, d, post, ⟨ids', nd', cid'⟩, hsplit, hok, hx⟩
+    exact ⟨pre, d, post, ids', nd', cid', hsplit, hok, (descRefusal_eq_some_iff r ids' nd' d e).1 hx⟩
+  · rintro ⟨pre, d, post, ids', nd', cid', hsplit, hok, hx⟩
+    exact ⟨pre, d, post, (ids', nd', cid'), hsplit, hok, (descRefusal_eq_some_iff r ids' nd' d e).2 hx⟩
+
+/-- **register_err_first** — `register`, in terms of the descriptors only: the call fails with `e`
+    exactly when EITHER the collector's descriptors split as `pre ++ d :: post` with `pre` accepted
+    (`Accepted`: each passes the three registry-level checks, ids pairwise distinct, shared names share
+    the signature) and `d` - the first offender - refused with `e` (`RefusedWith`: `AlreadyReg` iff no
+    common-label clash and id in use; `Msg` for a label clash, a signature disagreeing with the recorded
+    one or with an earlier descriptor of the collector, or an id an earlier descriptor has), OR all
+    descriptors are accepted, the collector id is taken and `e` is `AlreadyReg`. -/
+theorem register_err_first (r : Reg) (c : Coll) (e : RErr) :
+    (r.register c).2 = .error e ↔
+      (∃ pre d post, c.descs = pre ++ d :: post ∧ Accepted r pre ∧ RefusedWith r pre d e) ∨
+      (e = .alreadyReg ∧ Accepted r c.descs ∧
+        r.collectors.any (·.1 == cidOf (c.descs.map (·.id))) = true) := by
+  unfold Reg.register
+  cases hl : regLoop r c.descs [] [] 0 with
+  | error e' =>
+    simp only [Except.error.injEq]
+    constructor
+    · intro he
+      subst he
+      obtain ⟨pre, d, post, res, hsplit, hok, hx⟩ := (regLoop_err_iff r _ _ _ _ _).1 hl
+      exact Or.inl ⟨pre, d, post, hsplit, (accepted_iff r pre).1 ⟨res, hok⟩, (refusedWith_iff r pre res hok d e').1 hx⟩
+    · rintro (⟨pre, d, post, hsplit, hacc, href⟩ | ⟨_, hacc, _⟩)
+      · obtain ⟨res, hok⟩ := (accepted_iff r pre).2 hacc
+        have := (regLoop_err_iff r c.descs [] [] 0 e).2 ⟨pre, d, post, res, hsplit, hok, (refusedWith_iff r pre res hok d e).2 href⟩
+        rw [hl] at this
+        exact Except.error.inj this
+      · obtain ⟨res, hok⟩ := (accepted_iff r c.descs).2 hacc
+        rw [hl] at hok; cases hok
+  | ok t =>
+    obtain ⟨ids, nd, cid⟩ := t
+    obtain ⟨_, _, _, hcid⟩ := regLoop_ok r _ _ _ _ _ _ _ hl
+    have hcid : cid = cidOf (c.descs.map (·.id)) := hcid
+    have hacc : Accepted r c.descs := (accepted_iff r c.descs).1 ⟨_, hl⟩
+    simp only []
+    constructor
+    · intro h
+      split at h
+      · next hany =>
+        simp only [Except.error.injEq] at h
+        exact Or.inr ⟨h.symm, hacc, by rw [← hcid]; exact hany⟩
+      · cases h
+    · rintro (⟨pre, d, post, hsplit, hacc', href⟩ | ⟨he, _, hany⟩)
+      · obtain ⟨res, hok⟩ := (accepted_iff r pre).2 hacc'
+        have := (regLoop_err_iff r c.descs [] [] 0 e).2 ⟨pre, d, post, res, hsplit, hok, (refusedWith_iff r pre res hok d e).2 href⟩
+        rw [hl] at this; cases this
+      · rw [← hcid] at hany
+        rw [if_pos hany, he]
+
+/-- **register_alreadyReg_iff** — `register` answers `AlreadyReg` exactly when the descriptor loop
+    fails with `AlreadyReg` (its first offending descriptor clashes with no common label and has an id
+    in use - an equal descriptor is registered) or the loop succeeds and the collector id is taken (the
+    same collector is registered). -/
+theorem register_alreadyReg_iff (r : Reg) (c : Coll) :
+    (r.register c).2 = .error .alreadyReg ↔
+      regLoop r c.descs [] [] 0 = .error .alreadyReg ∨
+      ∃ ids nd cid, regLoop r c.descs [] [] 0 = .ok (ids, nd, cid) ∧ r.collectors.any (·.1 == cid) = true := by
+  unfold Reg.register
+  cases hl : regLoop r c.descs [] [] 0 with
+  | error e' =>
+    simp only [Except.error.injEq, reduceCtorEq, false_and, exists_false, or_false]
+  | ok t =>
+    obtain ⟨ids, nd, cid⟩ := t
+    simp only [reduceCtorEq, false_or, Except.ok.injEq, Prod.mk.injEq]
+    constructor
+    · intro h
+      split at h
+      · next hany => exact ⟨ids, nd, cid, ⟨rfl, rfl, rfl⟩, hany⟩
+      · cases h
+    · rintro ⟨ids', nd', cid', ⟨rfl, rfl, rfl⟩, hany⟩
+      rw [if_pos hany]
+
+/-- `register_alreadyReg_iff` on the descriptors: `AlreadyReg` iff the first descriptor that is not
+    accepted clashes with no common label and has an id in use, or all are accepted and the collector
+    id (the wrapping sum of the descriptor ids) is taken -/
+theorem register_alreadyReg_first (r : Reg) (c : Coll) :
+    (r.register c).2 = .error .alreadyReg ↔
+      (∃ pre d post, c.descs = pre ++ d :: post ∧ Accepted r pre ∧
+        clashesCommon r.labels d = false ∧ r.descIds.contains d.id = true) ∨
+      (Accepted r c.descs ∧ r.collectors.any (·.1 == cidOf (c.descs.map (·.id))) = true) := by
+  rw [register_err_first]
+  unfold RefusedWith
+  simp only [reduceCtorEq, false_and, or_false, true_and]
+
 /-- **unregister_ok_iff** — succeeds exactly when a collector with that collector id is registered -/
 theorem unregister_ok_iff (r : Reg) (c : Coll) :
     (r.unregister c).2 = .ok () ↔
@@ -227,6 +383,25 @@ def isErr (x : Except RErr Unit) (e : RErr) : Bool := match x with | .error e' =
 def isOk (x : Except RErr Unit) : Bool := match x with | .ok _ => true | .error _ => false
 example : isErr (r1.register ⟨[dA, dB], []⟩).2 .alreadyReg = true ∧
     isOk ((r1.register ⟨[dA, dB], []⟩).1.register ⟨[dA'], []⟩).2 = true := by decide +kernel
+
+/-- non-vacuity of the error kinds: over a registry with common label `z` holding `dB` (id 2), the
+    collector `[dA, dB]` is refused `AlreadyReg` at its second descriptor; `[dA, dA'']` (same name,
+    other signature) and `[dA, dA]` (id repeated) are refused `Msg` at theirs; `[dA', dB]` is refused
+    `Msg` although `dB`'s id is in use, because `dA'` (label `z`) comes first; registering `[dB]`
+    again answers `AlreadyReg` (id in use). The other way to `AlreadyReg`: over a registry
+    holding the collector `[dA, dB]` (ids 1 and 2, collector id 3), the one-descriptor collector `[dC]`
+    with the unused id 3 passes the loop and is refused because its collector id 3 is taken. -/
+def dA'' : Desc := ⟨strOfString "m", strOfString "other", [], [], 4, 11⟩
+def dC : Desc := ⟨strOfString "m3", strOfString "h", [], [], 3, 30⟩
+def r12 : Reg := (({} : Reg).register ⟨[dA, dB], []⟩).1
+def loopOk (x : Except RErr (List UInt64 × List (Str × UInt64) × UInt64)) : Bool := match x with | .ok _ => true | .error _ => false
+def rz : Reg := (({ labels := some [(strOfString "z", strOfString "0")] } : Reg).register ⟨[dB], []⟩).1
+example : isErr (rz.register ⟨[dA, dB], []⟩).2 .alreadyReg = true ∧
+    isErr (rz.register ⟨[dA, dA''], []⟩).2 .msg = true ∧
+    isErr (rz.register ⟨[dA, dA], []⟩).2 .msg = true ∧
+    isErr (rz.register ⟨[dA', dB], []⟩).2 .msg = true ∧
+    isErr (rz.register ⟨[dB], []⟩).2 .alreadyReg = true ∧
+    loopOk (regLoop r12 [dC] [] [] 0) = true ∧ isErr (r12.register ⟨[dC], []⟩).2 .alreadyReg = true := by decide +kernel
 
 /-- non-vacuity of `admission_exact`: a history with a refused multi-descriptor registration and an
     unregister meets `WellKeyedHist` -/
